@@ -177,9 +177,124 @@ fn parse_main(args: &[String]) -> i32 {
     0
 }
 
+// ---------------------------------------------------------------------------
+// base64 / base64url decoding (fixed and variable length) through the standard library's chip
+
+use midnight_circuits::{instructions::{base64::Base64VarInstructions, Base64Instructions, VectorInstructions}, types::InnerValue, vec::AssignedVector};
+use midnight_zk_stdlib::{MidnightCircuit, Relation, ZkStdLib, ZkStdLibArch};
+
+#[derive(Clone, Debug)]
+pub struct B64Rel {
+    pub sc: J,
+}
+
+thread_local! {
+    static B64_VALUE: std::cell::RefCell<Option<Vec<u8>>> = const { std::cell::RefCell::new(None) };
+}
+
+impl Relation for B64Rel {
+    type Instance = Vec<F>;
+    type Witness = ();
+    fn format_instance(i: &Vec<F>) -> Result<Vec<F>, Error> {
+        Ok(i.clone())
+    }
+    fn used_chips(&self) -> ZkStdLibArch {
+        ZkStdLibArch { base64: true, nr_pow2range_cols: 4, ..ZkStdLibArch::default() }
+    }
+    fn circuit(&self, s: &ZkStdLib, l: &mut impl Layouter<F>, _i: Value<Vec<F>>, _w: Value<()>) -> Result<(), Error> {
+        let input: Vec<u8> = self.sc["input"].as_array().unwrap().iter().map(|b| b.as_u64().unwrap() as u8).collect();
+        let url = self.sc["url"].as_bool().unwrap_or(false);
+        let padded = self.sc["padded"].as_bool().unwrap_or(true);
+        let chip = s.base64();
+        if self.sc["var"].as_bool().unwrap_or(false) {
+            // variable length: the decoded vector cannot be exposed; its (prover-side) value is captured
+            macro_rules! var {
+                ($m:expr, $a:expr, $mo:expr, $ao:expr) => {{
+                    let v = <_ as Base64VarInstructions<F, $m, $a>>::assign_var_base64(chip, l, Value::known(input.clone()))?;
+                    let out: AssignedVector<F, AssignedByte<F>, $mo, $ao> = if url {
+                        <_ as Base64VarInstructions<F, $m, $a>>::var_decode_base64url::<$mo, $ao>(chip, l, &v)?
+                    } else {
+                        <_ as Base64VarInstructions<F, $m, $a>>::var_decode_base64::<$mo, $ao>(chip, l, &v)?
+                    };
+                    out.value().map(|val| B64_VALUE.with(|c| *c.borrow_mut() = Some(val)));
+                    let (st, en) = s.get_limits(l, &out)?;
+                    crate::gad::note('n', 1);
+                    s.constrain_as_public_input(l, &st)?;
+                    crate::gad::note('n', 1);
+                    s.constrain_as_public_input(l, &en)?;
+                }};
+            }
+            match (self.sc["m"].as_u64().unwrap_or(32), self.sc["a"].as_u64().unwrap_or(4)) {
+                (32, 4) => var!(32, 4, 24, 3),
+                (32, 8) => var!(32, 8, 24, 6),
+                (64, 4) => var!(64, 4, 48, 3),
+                _ => var!(64, 16, 48, 12),
+            }
+            return Ok(());
+        }
+        let ab: Vec<AssignedByte<F>> = s.assign_many(l, &input.iter().map(|b| Value::known(*b)).collect::<Vec<_>>())?;
+        for b in ab.iter() {
+            crate::gad::note('B', 1);
+            s.constrain_as_public_input(l, b)?;
+        }
+        let out = if url { chip.decode_base64url(l, &ab, padded)? } else { chip.decode_base64(l, &ab, padded)? };
+        for b in out.iter() {
+            crate::gad::note('B', 1);
+            s.constrain_as_public_input(l, b)?;
+        }
+        Ok(())
+    }
+    fn write_relation<W: std::io::Write>(&self, _w: &mut W) -> std::io::Result<()> {
+        Ok(())
+    }
+    fn read_relation<R: std::io::Read>(_r: &mut R) -> std::io::Result<Self> {
+        Ok(B64Rel { sc: J::Null })
+    }
+}
+
+fn b64_main(args: &[String]) -> i32 {
+    let scen = util::read_ndjson(&args[0]);
+    let mut out = util::create(&args[1]);
+    writeln!(out, "{}", json!({"ev":"header","prop":"C19","half":"base64","n":scen.len()})).unwrap();
+    for sc in scen.iter() {
+        let rel = B64Rel { sc: sc.clone() };
+        let circuit = MidnightCircuit::new(&rel, Value::known(vec![]), Value::known(()), Some(8));
+        let k = sc["k"].as_u64().unwrap_or(13) as u32;
+        B64_VALUE.with(|c| *c.borrow_mut() = None);
+        let r = crate::gad::run_game(&circuit, k, None);
+        let small = |x: &F| {
+            let v = crate::gad::nat_of_f(x);
+            if v.len() > 4 { u32::MAX as u64 } else { v.iter().enumerate().map(|(i, d)| (*d as u64) << (8 * i)).sum::<u64>() }
+        };
+        let exposed: Vec<u64> = r.exposed.iter().map(small).collect();
+        let value = B64_VALUE.with(|c| c.borrow().clone());
+        writeln!(out, "{}", json!({"ev":"B64","input":sc["input"],"url":sc["url"],"padded":sc["padded"],"var":sc["var"].as_bool().unwrap_or(false),
+            "m":sc["m"].as_u64().unwrap_or(0),"a":sc["a"].as_u64().unwrap_or(0),"status":r.status,"exposed":exposed,"value":value,"detail":r.detail,"tampered":false})).unwrap();
+        if r.status == "sat" {
+            if let Some(faults) = sc["faults"].as_array() {
+                let maxi = sc["max_index"].as_u64().unwrap_or(20) as usize;
+                let stride = (r.nassign / maxi.max(1)).max(1);
+                let mut i = 0;
+                while i < r.nassign {
+                    for f in faults {
+                        let t = crate::gad::run_game(&circuit, k, Some((i, crate::gad::fault_of(f.as_str().unwrap()))));
+                        writeln!(out, "{}", json!({"ev":"B64","input":sc["input"],"url":sc["url"],"padded":sc["padded"],"var":false,"m":0,"a":0,
+                            "status":t.status,"exposed":t.exposed.iter().map(small).collect::<Vec<_>>(),"detail":t.detail,"tampered":true,"tamper":{"i":i,"fault":f}})).unwrap();
+                    }
+                    i += stride;
+                }
+            }
+        }
+    }
+    0
+}
+
 pub fn main(args: &[String]) -> i32 {
     if args[0] == "parse" {
         return parse_main(&args[1..]);
+    }
+    if args[0] == "b64" {
+        return b64_main(&args[1..]);
     }
     let scen = util::read_ndjson(&args[0]);
     let mut out = util::create(&args[1]);
